@@ -339,7 +339,18 @@ class ManifestContext:
                     audio.representations[0])
             audio.append_cgi_params(aud_params)
         for text in text_adps:
-            text.append_cgi_params(self.cgi_params.text)
+            txt_params = self.cgi_params.text
+            if self.options.textErrors and text.representations:
+                # as for video and audio: a time of day is replaced by the
+                # number of the segment that is live at that time
+                txt_params = dict(txt_params)
+                txt_params['terr'] = self.calculate_injected_error_segments(
+                    self.options.textErrors,
+                    self.now,
+                    self.options.availabilityStartTime,
+                    self.options.timeShiftBufferDepth,
+                    text.representations[0])
+            text.append_cgi_params(txt_params)
         if self.cgi_params.manifest:
             locationURL = flask.request.url
             if '?' in locationURL:
